@@ -20,7 +20,7 @@ ASSUMPTIONS = ["model scans report Hang when the model's matcher runs out of fue
 MALFORMED = [b"abc^\r", b"abc^\r\n", b"cmd /c foo^\r", b"&#xzz;" * 5, b"FromBase64String('ZHVjaw==') -bxor 999", b"powershell/e^\r\nAAAA", b"x http://[::1%2E]/ y",
              b'x = "powershell -nop Get-Item and no closing quote', b"cmd a) b) c", b"chr(2147483648)", b"http://a.com/p?#frag", b"\\\\.abc\\UNC\\1.2.3.4\\file.txt",
              b"unescape('%')", b"&#1;&#2;&#3;&#4;&#256;", b"0x41,0x42," * 300, b"MZ" + b"\x00" * 58 + b"\x40\x00\x00\x00PE\x00\x00" + b"\x00" * 300, b"'(", b"('", b"\x00" * 50, b"^" * 40,
-             b",".join(b"%d" % (i % 256) for i in range(600)) + b" -bxor $k", b"(((((((((((", b"))))))))))", b'""""""""""', b"%%%%%%%%", b"http://" + b"a" * 300, b"a@" * 50, b"1.2.3.4." * 20]
+             b",".join(b"%d" % (i % 256) for i in range(600)) + b" -bxor $k", b"MZ" + b"\x00" * 60, b"zz MZ" + b"\x01" * 61, b"MZ" + b"\x00" * 62, b"MZ" + b"\x00" * 59, b"(((((((((((", b"))))))))))", b'""""""""""', b"%%%%%%%%", b"http://" + b"a" * 300, b"a@" * 50, b"1.2.3.4." * 20]
 
 
 def pe_blob(section_end):
